@@ -746,14 +746,20 @@ def gen_misc():
     # float base conversion: exponent magnitude up to which the exact path is used
     csrc = read("float/src/convert.rs")
     m = re.search(r"const\s+THRESHOLD_SMALL_EXP\s*:\s*isize\s*=\s*\(Word::BITS as f32 \* ([0-9.]+)\) as isize\s*;", csrc)
-    if not m:
-        raise ExtractError("THRESHOLD_SMALL_EXP in float/src/convert.rs is not of the form `(Word::BITS as f32 * c) as isize`")
-    import struct
-    def f32(x):
-        return struct.unpack("f", struct.pack("f", x))[0]
-    cst = f32(float(m.group(1)))
-    vals = {W: int(f32(f32(float(W)) * cst)) for W in (16, 32, 64)}
-    out.append("/-- `THRESHOLD_SMALL_EXP = (Word::BITS as f32 * %s) as isize` in float/src/convert.rs, per word size -/" % m.group(1))
+    m2 = re.search(r"const\s+THRESHOLD_SMALL_EXP\s*:\s*isize\s*=\s*(\d+)\s*;", csrc)
+    if m:
+        import struct
+        def f32(x):
+            return struct.unpack("f", struct.pack("f", x))[0]
+        cst = f32(float(m.group(1)))
+        vals = {W: int(f32(f32(float(W)) * cst)) for W in (16, 32, 64)}
+        how = "(Word::BITS as f32 * %s) as isize" % m.group(1)
+    elif m2:
+        vals = {W: int(m2.group(1)) for W in (16, 32, 64)}
+        how = m2.group(1)
+    else:
+        raise ExtractError("THRESHOLD_SMALL_EXP in float/src/convert.rs is neither a literal nor `(Word::BITS as f32 * c) as isize`")
+    out.append("/-- `THRESHOLD_SMALL_EXP = %s` in float/src/convert.rs, per word size -/" % how)
     out.append("def float_THRESHOLD_SMALL_EXP (W : Nat) : Nat :=\n    if W = 64 then %d else if W = 32 then %d else if W = 16 then %d else 0\n" % (vals[64], vals[32], vals[16]))
     info["float_THRESHOLD_SMALL_EXP"] = vals[64]
     rsrc = read("rational/src/simplify.rs")
